@@ -255,6 +255,17 @@ def s3_cases(tier: str, n: grammar.Names) -> list[tuple[tuple, dict[str, Any]]]:
                 ("for", "x", V("a"), (("offset", "continue"),), (("out", V("x")),), (("text", "none"),)),
             )  # fmt: skip
             cases.append((prog, {"long": long_, "short": short}))
+    # cycle groups are told apart by how their items are WRITTEN: a variable and a string of the same spelling, numbers
+    # with equal hashes (-1 / -2) or equal values (1 / 1.0), and the two quote styles of one string
+    T = ("text", "|")
+    item_sets = [
+        ((V("a"), V("b")), (S("a"), S("b"))), ((I(-1), I(5)), (I(-2), I(5))), ((I(1), I(2)), (("float", 1.0), ("float", 2.0))),
+        ((S("x"), I(1)), (V("x"), I(1))), ((TRUE, I(1)), (I(1), I(1))), ((NIL, S("")), (S(""), NIL)),
+    ]
+    for first, second in item_sets:
+        for grp in (None, S("g")):
+            prog = (("cycle", grp, first), T, ("cycle", grp, second), T, ("cycle", grp, first), T, ("cycle", grp, second), T, ("cycle", None, first))
+            cases.append((prog, {"a": "x", "b": "y", "x": "vx"}))
     # two-level nests: parentloop
     for it1, it2 in itertools.product(([1, 2], [], [1]), ([7, 8], [], "ab")):
         body2 = (("out", V("forloop", "parentloop", "index")), ("out", V("forloop", "index")), ("out", V("forloop", "parentloop", "last")), ("out", V("i")), ("out", V("j")), ("text", " "))
